@@ -1007,6 +1007,11 @@ def build_struct(target_host: str, banner: Optional['Banner'], kex: Optional['SS
         '''Returns a dictionary containing the messages in the "fail", "warn", and "info" levels for this algorithm.'''
         alg_db = SSH2_KexDB.get_db()
         alg_info = {}
+
+        # Normalize GSS key exchange names the same way output_algorithm() does (i.e.: 'gss-gex-sha1-vz8J1E9PzLr8b1K+0remTg==' => 'gss-gex-sha1-*'), otherwise they would always be reported as unknown here.
+        if alg_type == 'kex' and algorithm.startswith('gss-'):
+            algorithm = "%s-*" % algorithm[0:algorithm.rindex('-')]
+
         if algorithm in alg_db[alg_type]:
             alg_desc = alg_db[alg_type][algorithm]
             alg_desc_len = len(alg_desc)
@@ -1318,6 +1323,11 @@ def algorithm_lookup(out: OutputBuffer, alg_names: str) -> int:
         }
         for (outer_k, outer_v) in adb.items()
     }
+
+    # GSS key exchanges are stored with a wildcard in place of their base64 suffix (i.e.: 'gss-gex-sha1-*'), so match full names against the wildcard form.  output_algorithm() normalizes them again when rating them.
+    for alg_name in algorithm_names:
+        if alg_name.startswith('gss-') and alg_name not in adb['kex'] and ("%s-*" % alg_name[0:alg_name.rindex('-')]) in adb['kex']:
+            algorithms_dict['kex'].add(alg_name)
 
     unknown_algorithms: List[str] = []
     padding = len(max(algorithm_names, key=len))
